@@ -83,7 +83,7 @@ def main(argv=None):
     violations = []  # (unit, obl name, example)
     undecided = []
     known_hits = collections.OrderedDict()
-    n_obl = n_dis = 0
+    n_obl = n_dis = n_known_inst = 0
     solver_secs = 0.0
     per_backend = collections.Counter()
     samples = []
@@ -132,7 +132,10 @@ def main(argv=None):
                 faults.append(f"{uname}: canary was NOT refuted - the engine proves a false clause")
             continue
         for oname, e in by.items():
-            cnt = e["discharged"] + e["refuted"] + e["undecided"] + e.get("known", 0)
+            # instances attributed to a listed known finding are reported separately (coverage.known_findings),
+            # they are neither obligations counted as discharged nor silently dropped
+            cnt = e["discharged"] + e["refuted"] + e["undecided"]
+            n_known_inst += e.get("known", 0)
             n_obl += cnt
             n_dis += e["discharged"]
             solver_secs += e["secs"]
@@ -212,7 +215,7 @@ def main(argv=None):
 
         write_evidence(a.prop, a.tier, seed, agg=agg, summ=summ, n_obl=n_obl, n_dis=n_dis, solver_secs=solver_secs,
                        per_backend=per_backend, samples=samples, fn_rows=fn_rows, assumed=assumed,
-                       canaries=canaries, known=kf_lines, violations=vio_out, undecided=undecided, faults=faults,
+                       canaries=canaries, known=kf_lines, extra={"known_finding_instances": n_known_inst}, violations=vio_out, undecided=undecided, faults=faults,
                        wall=wall, rc=rc)
     tot_paths = sum(len(a_["paths"]) for a_ in agg.values())
     print(f"{a.prop} [{a.tier}] units={len(agg)} paths={tot_paths} obligations={n_obl} discharged={n_dis} "
